@@ -123,6 +123,12 @@ def handle (args : List String) : String :=
       -- full decoder on small widths)
       s!"{if f.budgetOk nb then min (8 * nb - 5) f.decodeMaxRows.toNat else 0} {bufferBytes f.decParams}"
     | _, _, _ => "bad-args"
+  | ["cmaxrows", cols, k, rows, flags, nb] =>   -- rows delivered from a body that holds more rows than the cap
+    match int? cols, int? k, int? rows, nat? nb with
+    | some cols, some k, some rows, some nb =>
+      let f := ccittOf cols k rows flags
+      toString (if f.budgetOk nb then f.decParams.maxRows else 0)
+    | _, _, _, _ => "bad-args"
   | ["info", "flate", v, p, c, b, col] =>
     match nat? v, int? p, int? c, int? b, int? col with
     | some v, some p, some c, some b, some col =>
